@@ -11,6 +11,8 @@
     bipartitions per edge, label predicate, isometry defect.
 (c) TInterp: TTNS program interpreter with a dense model in lock step (analogue of vf.chain.Interp).
 """
+import traceback
+
 import numpy as np
 from hypothesis import strategies as st
 
@@ -370,6 +372,21 @@ def ref_operator(mspec, terms, bl=None):
     return gen.dense_operator(mspec, terms, 0.0, bl)
 
 
+def qr_scale(mspec, terms, bl, scale):
+    """scale for the QR construction: its rank / entry cuts (1e-10) are relative to the largest *factor of the table*, whatever the
+    norm of the local matrices that factor multiplies (a term such as 1000 * (sigma_+ sigma_+) vanishes as an operator but still sets
+    the cut) -> (sum_k |c_k|) * max_k prod ||local matrices of term k||"""
+    big = 0.0
+    tot = 0.0
+    for t in terms:
+        nrm = 1.0
+        for site, (words, ldofs) in gen.regroup(t).items():
+            nrm *= np.linalg.norm(gen.local_matrix(mspec, bl, site, words, ldofs), 2)
+        big = max(big, nrm)
+        tot += abs(gen.term_factor(t))
+    return max(scale, tot * max(big, 1.0))
+
+
 def build_ops(mspec, terms):
     return [gen.build_op(mspec, t) for t in terms]
 
@@ -554,7 +571,8 @@ def random_topologies(draw, n, max_nodes=7, max_dummy=2, single=False):
         nd = draw(st.integers(0, max(0, min(max_dummy, max_nodes - len(groups)))))
     N = len(groups) + nd
     dummy = sorted(draw(st.lists(st.integers(0, N - 1), min_size=nd, max_size=nd, unique=True))) if nd else []
-    parent = [0] + [draw(st.integers(0, i - 1)) for i in range(1, N)]
+    shape = draw(st.sampled_from(["uniform", "uniform", "uniform", "star", "chain"]))
+    parent = [0] + [draw(st.integers(0, i - 1)) if shape == "uniform" else (0 if shape == "star" else i - 1) for i in range(1, N)]
     return {"groups": groups, "dummy": dummy, "parent": parent,
             "child_order": [draw(st.integers(0, 3)) for _ in range(N)], "dummy_auto": draw(st.booleans())}
 
@@ -644,6 +662,13 @@ class TInterp:
             s, in_lib = lib_exception_sig(e)
             if not in_lib:
                 raise
+            if self.sctx.qs > 1 and isinstance(e, ValueError) and "Inconsistent quantum number size" in str(e) and \
+                    any(fr.name == "expectation" for fr in traceback.extract_tb(e.__traceback__)):
+                # TTNS.expectation extends the tree by a BasisDummy with ONE quantum-number component: own signature so that
+                # this region (expectation / norm on trees with >= 2 qn components) never hides another failure
+                self.r.fail("expectation.multi_component_qn.ValueError",
+                            f"TTNS.expectation (called by {sig}) on a tree with {self.sctx.qs} quantum-number components: {e!r}")
+                return False, None
             self.r.fail(f"{sig}.{s}", f"{e!r} trace={self.trace[-6:]}")
             return False, None
 
@@ -748,11 +773,29 @@ class TInterp:
                 raise
             self.r.fail(f"create.random.{s}", f"{e!r} q={q} m={m}")
             return
+        tag = "random"
         if ins.get("cplx"):
-            x = x.to_complex()
-            x.scale(np.exp(0.7j), inplace=True)
+            # a genuinely complex state (complex reduced density matrices): x + i*y with a second random state;
+            # on a single-node tree (F9 region of add) only a global phase
+            y = None
+            if not self.sctx.single_node:
+                try:
+                    y = TTNS.random(self.sctx.tree, self.qarg(q), m, percent=ins.get("pct", 1.0))
+                except Exception:  # noqa
+                    y = None
+            if y is not None:
+                ok, x2 = self.guard("create.random.cplx", lambda: x.add(y.scale(1j)))
+                if not ok:
+                    return
+                if np.linalg.norm(self.dense(x2)) > 1e-6:
+                    x = x2
+                    tag = "random_sum"
+                    self.r.classes.append("create.random.complex")
+            if not np.iscomplexobj(x.root.tensor):
+                x = x.to_complex()
+                x.scale(np.exp(0.7j), inplace=True)
         self.r.classes.append("create.random")
-        self.add_state(x, q, "random")
+        self.add_state(x, q, tag)
 
     def i_prod(self, ins):
         from renormalizer.tn import TTNS
@@ -804,7 +847,7 @@ class TInterp:
         ok, o = self.guard("create.ttno", lambda: TTNO(octx.tree, ops, algo=algo) if algo != "default" else TTNO(octx.tree, ops))
         if not ok:
             return
-        tol = (1e-7 if algo == "qr" else 1e-9) * scale
+        tol = 1e-7 * qr_scale(self.mspec, terms, self.ctx.bl, scale) if algo == "qr" else 1e-9 * scale
         if on_p:
             ok, got = self.guard("create.ttno.todense", ttno_dense, self.ctx, o)
             if not ok:
@@ -873,6 +916,21 @@ class TInterp:
         self._new(c, ref, a.q, "add", ins, sig)
         self.compare("arith.add.operand_a", a, "operand a after add")
         self.compare("arith.add.operand_b", b, "operand b after add")
+
+    def i_cadd(self, ins):
+        """a + i*b: a genuinely complex superposition"""
+        a = self.pick(self.S, ins["a"])
+        if a is None or len(self.S) >= self.max_regs or self.sctx.single_node:
+            return
+        b = self.pick(self.S, ins["b"], same_q_as=a)
+        if b is None or not self._nonzero_sum(a.model, 1j * b.model):
+            return
+        if max(x + y for x, y in zip(a.obj.bond_dims, b.obj.bond_dims)) > 48:
+            return
+        ok, c = self.guard("arith.cadd", lambda: a.obj.add(b.obj.scale(1j)))
+        if ok:
+            self.r.classes.append("arith.cadd")
+            self._new(c, a.model + 1j * b.model, a.q, "cadd", ins, "arith.add")
 
     def _scalar(self, ins):
         v = complex(ins["val"][0], ins["val"][1])
@@ -1057,10 +1115,15 @@ class TInterp:
     def i_truncate(self, ins):
         from renormalizer.utils import CompressConfig, CompressCriteria
 
-        reg = self.pick(self.S, ins["a"])
         sc = self.sctx
-        if reg is None or sc.single_node:
+        if not self.S or sc.single_node:
             return
+        if ins.get("big", True):
+            # prefer the registers with the largest bonds (a truncation of a product state is trivial)
+            cands = sorted(self.S, key=lambda x: -max(x.obj.bond_dims))[:2]
+            reg = cands[ins["a"] % len(cands)]
+        else:
+            reg = self.pick(self.S, ins["a"])
         r = self.r
         ok, x = self.guard("trunc.copy", reg.obj.copy)
         if not ok:
@@ -1076,15 +1139,21 @@ class TInterp:
         spectra = {i: sc.edge_spectrum(psi, i) for i in range(1, N)}
         crit = {"threshold": CompressCriteria.threshold, "fixed": CompressCriteria.fixed, "both": CompressCriteria.both}[ins["crit"]]
         Mlist = [ins["Mlist"][i % len(ins["Mlist"])] for i in range(N + 1)]
+        M = ins["M"]
+        if ins.get("rel"):
+            # limits relative to the bonds of the state so that something is actually cut
+            bd0 = list(x.bond_dims) + [1]
+            M = 1 + (M - 1) % max(1, max(bd0) - 1)
+            Mlist = [1 + (Mlist[i] - 1) % max(1, bd0[i] - 1) for i in range(N + 1)]
         style = ins["style"]
         temp = None
         if style in ("temp_int", "temp_list"):
-            limits = [ins["M"]] * (N + 1) if style == "temp_int" else Mlist
-            temp = ins["M"] if style == "temp_int" else list(limits[:N])
+            limits = [M] * (N + 1) if style == "temp_int" else Mlist
+            temp = M if style == "temp_int" else list(limits[:N])
             eff = "fixed"
         else:
-            cfg = CompressConfig(crit, threshold=ins["thr"], max_bonddim=ins["M"])
-            limits = [ins["M"]] * (N + 1)
+            cfg = CompressConfig(crit, threshold=ins["thr"], max_bonddim=M)
+            limits = [M] * (N + 1)
             if style == "config_list":
                 cfg.max_dims = np.array(Mlist, dtype=int)
                 limits = Mlist
@@ -1627,7 +1696,7 @@ _ref = st.integers(0, 20)
 def create_instr(draw, allow=("random", "random", "prod")):
     op = draw(st.sampled_from(allow))
     if op == "random":
-        m = draw(st.sampled_from([1, 2, 2, 3, 4, 6]))
+        m = draw(st.sampled_from([1, 2, 3, 4, 4, 6, 6]))
         if draw(st.integers(0, 4)) == 0:
             m = [draw(st.sampled_from([1, 2, 3, 4, 6])) for _ in range(7)]
         return {"op": "random", "q": draw(st.integers(0, 50)), "m": m, "pct": draw(st.sampled_from([1.0, 1.0, 0.5])),
@@ -1640,7 +1709,7 @@ def create_instr(draw, allow=("random", "random", "prod")):
 def ttno_instr(draw, mspec, max_terms=4):
     has_qn = any(np.any(gen.site_sigmaqn(mspec, i) != 0) for i in range(len(mspec["sites"])))
     algo = draw(st.sampled_from(["qr", "Hopcroft-Karp", "default"]))
-    partial = draw(st.booleans())
+    partial = draw(st.integers(0, 3)) > 0
     if has_qn or draw(st.booleans()):
         terms, q = draw(gen.charged_operator(mspec, max_terms=max_terms, real_only=True))
         return {"op": "ttno", "terms": terms, "charge": list(q), "algo": algo, "partial": partial}
@@ -1653,8 +1722,10 @@ _pairs = st.lists(st.tuples(st.integers(0, 12), st.integers(0, 12)).map(list), m
 
 @st.composite
 def arith_instr(draw):
-    op = draw(st.sampled_from(["add", "add", "add", "scale", "scale", "copy", "to_complex", "apply", "apply", "apply", "contract"]))
+    op = draw(st.sampled_from(["add", "add", "add", "cadd", "scale", "scale", "copy", "to_complex", "apply", "apply", "apply", "contract"]))
     a, b, o = draw(_ref), draw(_ref), draw(_ref)
+    if op == "cadd":
+        return {"op": "cadd", "a": a, "b": b}
     if op == "add":
         return {"op": "add", "a": a, "b": b, "meth": draw(st.integers(0, 1))}
     if op == "scale":
@@ -1715,8 +1786,8 @@ def observe_instr(draw):
 @st.composite
 def trunc_instr(draw):
     return {"op": "truncate", "a": draw(_ref), "crit": draw(st.sampled_from(["threshold", "fixed", "fixed", "both"])),
-            "thr": draw(st.sampled_from([1e-4, 1e-3, 1e-2, 0.05, 0.1, 0.3, 0.6])),
-            "M": draw(st.sampled_from([1, 1, 2, 2, 3, 4])),
+            "thr": draw(st.sampled_from([1e-3, 1e-2, 0.05, 0.1, 0.2, 0.3, 0.5, 0.6])),
+            "M": draw(st.sampled_from([1, 1, 2, 2, 3, 4])), "big": draw(st.integers(0, 3)) > 0, "rel": draw(st.booleans()),
             "style": draw(st.sampled_from(["config", "config_list", "temp_int", "temp_list"])),
             "Mlist": draw(st.lists(st.sampled_from([1, 2, 2, 3, 4]), min_size=8, max_size=8)),
             "ret_s": draw(st.booleans())}
